@@ -1,10 +1,10 @@
 (* storagemodel: runs M-STORAGE (coq/theories/Storage/Model.v) on scenarios.  One scenario per line:
-     <p9><p10> ; step ; step ; ...          p9, p10 in {0,1}: the switches fixed_P9, fixed_P10
+     <p9><p10><sf> ; step ; step ; ...      p9, p10, sf in {0,1}: the switches fixed_P9, fixed_P10, fixed_send_force
    steps (hex-encoded paths and contents, "-" = empty):
      new <i> <guid> <b3|b2|s2|s3>
      track <i> <pathhex> <copy|hardlink|symlink|reflink> <byteshex>
      clone <i> <j> | drop <i> | udel <i> <pathhex> | uwrite <i> <pathhex> <byteshex>
-     send <i> <L|G> <pathhex,...|-> <faults>              faults: string over o (ok) c (clean) p (partial), or -
+     send <i> <L|G> <force 0|1> <pathhex,...|-> <faults>  faults: string over o (ok) c (clean) p (partial), or -
      bring <i> <L|G> <tmp_same_fs 0|1> <force 0|1> <pathhex,...|-> <faults>
    Output: one observation per step, separated by " | ":
      oc=<Ok|Err|Panic> st=<guid>/<addr>=<byteshex>,... r<i>=<addr>=<byteshex>,...;<pathhex>=<byteshex|!>,... ...
@@ -35,7 +35,7 @@ let parse_step s : step =
   | ["drop"; i] -> SDropCache (num i)
   | ["udel"; i; p] -> SUserDel (num i, bs p)
   | ["uwrite"; i; p; c] -> SUserWrite (num i, bs p, bs c)
-  | ["send"; i; k; ts; fs] -> SSend (num i, kind_of k, lst ts, faults fs)
+  | ["send"; i; k; f; ts; fs] -> SSend (num i, kind_of k, flag f, lst ts, faults fs)
   | ["bring"; i; k; t; f; ts; fs] -> SBring (num i, kind_of k, flag t, flag f, lst ts, faults fs)
   | _ -> failwith ("step " ^ s)
 
@@ -60,7 +60,7 @@ let () =
         | [] -> "bad empty"
         | c :: steps ->
             let c = Stdlib.String.trim c in
-            let cf = { fixed_P9 = (c.[0] = '1'); fixed_P10 = (c.[1] = '1') } in
+            let cf = { fixed_P9 = (c.[0] = '1'); fixed_P10 = (c.[1] = '1'); fixed_send_force = (c.[2] = '1') } in
             let (_, obs) = Stdlib.List.fold_left (fun (w, acc) s ->
                 let (w', oc) = wstep cf w (parse_step s) in (w', observe w' oc :: acc)) (world0, []) steps in
             Stdlib.String.concat " | " (Stdlib.List.rev obs)
